@@ -55,10 +55,10 @@ theorem scaleXyz_default_bridge (mi : Nat) (fx fy fz : Rat) (s : State) (hwf : W
   simp only [scaleXyzMap, V3.add, V3.mk.injEq]
   try (refine ⟨?_, ?_, ?_⟩ <;> ring)
 
-/-- `flatten(mesh, dim)` as written (IN-PLACE item assignment on every stored vector) is the model's `flatten` -/
-theorem flatten_bridge (mi d : Nat) (s : State) : Generated.C06Src.flatten mi d s = flatten d s mi := by
+/-- `flatten(mesh, dim)` as written (a COPY of the vertex, its component `dim` set to 0, rebound) is the model's `flatten` -/
+theorem flatten_bridge (mi d : Nat) (s : State) (hwf : WF s) : Generated.C06Src.flatten mi d s = flatten d s mi := by
   unfold Generated.C06Src.flatten flatten
-  exact inplaceLoop_eq d 0 s mi
+  exact rebindLoop_eq (fun p => p.set d 0) _ s mi hwf (fun s' i => rfl)
 
 /-- `normalize` as written (box of the INPUT, `sc = 1/max span`, then `scale(translate(mesh, -anchor), factor)`) is the
 model's `normalize` -/
@@ -119,6 +119,30 @@ theorem mergeRun_bridge {α : Type} (payload : Mesh → List α) (ms : List Mesh
   funext acc m
   exact mergeBody_bridge payload acc m
 
+/-- `copy` as written — the statement tables of both `copy_attributes` branches and of the connectivity statement, with the
+meaning `copyByTables` gives them (Model/MeshSource.lean) — is the model's `copyX`: EVERY data field of EVERY container is
+deep-copied (coordinates, element tuples, corner tables), whole containers under `copy_attributes`, and the connectivity handler
+goes through `deepcopy` with the memo that re-points it to the copy -/
+theorem copy_bridge (i : Nat) (attrs conn : Bool) (s : StateX) : Generated.C06Src.copy i attrs conn s = copyX s i attrs := by
+  unfold Generated.C06Src.copy copyByTables
+  have h1 : (Generated.C06Src.copyFresh && dataPaths.all (fun p => deepOf Generated.C06Src.copyDataBranch p.1 p.2) &&
+      contPaths.all (fun p => deepOf Generated.C06Src.copyAttrBranch p.1 p.2)) = true := by decide +kernel
+  have h2 : (Generated.C06Src.copyConnBranch.all (fun f => f.how == .deepMemo)) = true := by decide +kernel
+  rw [if_pos h1, if_pos h2]
+
+/-- hence the copy theorems of Props/C06.lean hold for the translated `copy`: e.g. whatever the switches, the copy's coordinates
+live in fresh cells and its handler is its own (`copy_switches`) -/
+theorem src_copy_switches (s : StateX) (i : Nat) (attrs conn : Bool) (m : Mesh) (e : MeshX)
+    (hm : s.st.meshes[i]? = some m) (he : s.extras[i]? = some e) (hwf : WF s.st) :
+    (Generated.C06Src.copy i attrs conn s).st = (copyX s i attrs).st ∧
+    (Generated.C06Src.copy i attrs conn s).conns.length = s.conns.length + 1 := by
+  rw [copy_bridge]
+  refine ⟨rfl, ?_⟩
+  unfold copyX
+  rw [hm, he]
+  simp only
+  cases e.attr <;> cases attrs <;> simp [pushPlain, alloc]
+
 /-! ### the headline theorems, about the translated definitions -/
 
 /-- `translate(t)` then `translate(-t)`, both as written in the source, restore every coordinate of the mesh -/
@@ -172,7 +196,7 @@ theorem src_transforms_alias_free (s : State) (haf : AliasFree s) (mi : Nat) (t 
   · rw [scale_bridge _ _ _ _ hwf]; exact aliasFree_mapRebind _ s mi haf
   · rw [rotate_bridge _ _ _ _ hwf]; exact aliasFree_mapRebind _ s mi haf
   · rw [scaleXyz_bridge _ _ _ _ _ _ hwf]; exact aliasFree_mapRebind _ s mi haf
-  · rw [flatten_bridge]; exact aliasFree_mapInPlace _ s mi haf
+  · rw [flatten_bridge _ _ _ hwf]; exact aliasFree_mapRebind _ s mi haf
   · rw [normalize_bridge _ _ _ hwf]
     unfold normalize
     cases hm : s.meshes[mi]? with
